@@ -80,6 +80,12 @@ Theorem C01_norm_is_plain (v : xvec) :
   (is_fin (xnorm2 NPlain v) = true -> all_fin v = true).
 Proof. split; [apply xnorm2_plain|apply xnorm2_fin_all; discriminate]. Qed.
 
+(* 5. ParVector::norm (per-rank squares summed by Allreduce) is the norm of the global vector for every partition
+      into contiguous blocks, empty blocks included: the solve wrapper does not depend on the row partition *)
+Theorem C01_norm_partition_independent (blocks : list (list F)) :
+  sumsq (concat blocks) = fold_right add zero (map sumsq blocks).
+Proof. intros; eapply sumsq_blocks; eassumption. Qed.
+
 End C01.
 
 (* ---------------------------------------------------------------------------------------------------- *)
@@ -145,3 +151,4 @@ Print Assumptions C01_converged_is_true.
 Print Assumptions C01_converged_squares.
 Print Assumptions C01_history_is_true.
 Print Assumptions C01_norm_is_plain.
+Print Assumptions C01_norm_partition_independent.
